@@ -85,12 +85,18 @@ def build_inputs(ctx, rows_r, rows_nm, n_mut):
             add("cdef", "extern %s;" % s, kind)
             add("cdef", "typedef %s;" % s, kind)
             add("cdef", "struct s_ { %s; };" % s, kind)
+    structured = pf.structured_inputs()
+    for api, text in structured:
+        add(api, text, "structured")
     for s in pf.CDEF_SEEDS:
         add("cdef", s, "seed")
     for s in pf.TYPEOF_SEEDS:
         add("typeof", s, "seed")
     for _ in range(n_mut):
-        if rng.random() < 0.7:
+        if rng.random() < 0.2:                         # mutants of the structured inputs
+            api, text = rng.choice(structured)
+            add(api, pf.mutate(rng, text), "mutant")
+        elif rng.random() < 0.7:
             base = rng.choice(pf.CDEF_SEEDS)
             if rng.random() < 0.2:                     # two declarations texts in a row (also twice the same)
                 base = base + (base if rng.random() < 0.5 else rng.choice(pf.CDEF_SEEDS))
